@@ -106,6 +106,23 @@ class Decision:
         self.bounded.append(rec)
         return rec
 
+    def add_lean(self, names, note=None):
+        """Top-level Lean theorems as named obligations (leanalg/runlean.py; cached by input hash)."""
+        from leanalg import runlean
+        res = runlean.run()
+        self.lean_meta = {"hash": res.get("hash"), "cached": res.get("cached"), "secs": res.get("secs"), "error": res.get("error")}
+        if res.get("error"):
+            self.undecided.append({"unit": "lean", "reason": res["error"]})
+            return res
+        for n in names:
+            t = res["theorems"].get(n)
+            if t is None:
+                self.lean.append({"name": f"lean:{n}", "ok": False, "failed_proof": True, "secs": 0, "output": "theorem not part of the audited list"})
+                continue
+            self.lean.append({"name": f"lean:{n}", "ok": t["ok"], "failed_proof": not t["ok"], "secs": (res.get("secs") or 0) / max(1, len(names)),
+                              "output": t["detail"]})
+        return res
+
     def totals(self):
         obl = sum(len(u["obligations"]) for u in self.units) + len(self.lean)
         dis = sum(1 for u in self.units for o in u["obligations"] if o["status"] == "proved") + sum(1 for l in self.lean if l["ok"])
